@@ -1,4 +1,5 @@
 import SplinkVerif.Drv.CC
+import SplinkVerif.Drv.CCSql
 import SplinkVerif.Drv.MultiThreshold
 import SplinkVerif.Drv.Blocking
 import SplinkVerif.Drv.Score
@@ -23,6 +24,8 @@ def dispatch (j : Json) : Except String Json := do
   let op ← getStr j "op"
   match op with
   | "cc" => handleCC j
+  | "cc_sql" => handleCCSql j
+  | "multi_sql" => handleMultiSql j
   | "multi" => handleMulti j
   | "block" => handleBlock j
   | "score" => handleScore j
